@@ -17,8 +17,8 @@ theorem stmt_zero : StmtOK P tm 0 := by
     passes — each of which only widens what a store may contain -/
 theorem loopIter_inv {decl : List Ty} {pass : Env → TC Pass}
     (hstep : ∀ L p, pass L = .ok p → ∀ (h : Heap) (σ : Store), StoreOK P h decl L σ → StoreOK P h decl p.next σ) :
-    ∀ (i : Nat) (L0 : Env) (out : Option Env × Recs), loopIter P decl pass i L0 = .ok out →
-      ∃ L p, pass L = .ok p ∧ envLe P decl p.next L = true ∧ out = (p.exit, p.recs) ∧
+    ∀ (i : Nat) (L0 : Env) (out : Pass), loopIter P decl pass i L0 = .ok out →
+      ∃ L, pass L = .ok out ∧ envLe P decl out.next L = true ∧
         ∀ (h : Heap) (σ : Store), StoreOK P h decl L0 σ → StoreOK P h decl L σ := by
   intro i
   induction i with
@@ -28,24 +28,29 @@ theorem loopIter_inv {decl : List Ty} {pass : Env → TC Pass}
     simp only [loopIter, bind_ok] at h
     obtain ⟨p, hp, h⟩ := h
     split at h
-    · obtain ⟨L, p', hp', hle, hout, hreach⟩ := ih p.next out h
-      exact ⟨L, p', hp', hle, hout, fun hh σ s => hreach hh σ (hstep L0 p hp hh σ s)⟩
+    · obtain ⟨L, hp', hle, hreach⟩ := ih p.next out h
+      exact ⟨L, hp', hle, fun hh σ s => hreach hh σ (hstep L0 p hp hh σ s)⟩
     · simp only [bind_ok, req_ok, pure_ok] at h
       obtain ⟨_, hle, hout⟩ := h
-      exact ⟨L0, p, hp, hle, hout.symm, fun _ _ s => s⟩
+      subst hout
+      exact ⟨L0, hp, hle, fun _ _ s => s⟩
 
 /-- the loop itself, from the checker's fixpoint frame `L`: by induction on the fuel -/
 theorem while_ok (w : WF P) {n : Nat} (ihe : ∀ m, m ≤ n → ExprOK P tm m) (ihs : ∀ m, m ≤ n → StmtOK P tm m)
-    {k : Nat} {C : Ctx} (hP : C.P = P) {c : Expr} {b : Stmt} {L L' : Env} {rc : ERes} {rb : Option Env × Recs}
+    {k : Nat} {C : Ctx} (hP : C.P = P) {c : Expr} {b : Stmt} {L L' : Env} {rc : ERes} {rb : SRes}
     {m1 m2 : Option Env × Bool}
-    (hrc : tcE k C L false true c = .ok rc) (hbool : rc.ty = [.bool])
+    (hrc : tcE k C L false true c = .ok rc)
     (hrb : tcS k C (pushMap L false rc.yes) b = .ok rb)
-    (hm1 : mergeEnvs P C.decl L [rb.1, pushMap L false rc.no] = .ok m1)
-    (hm2 : mergeEnvs P C.decl L [some L, m1.1] = .ok m2) (hL' : m2.1 = some L')
+    (hm1 : mergeEnvs P C.decl L [rb.out, pushMap L false rc.no] = .ok m1)
+    (hm2 : mergeEnvs P C.decl L (some L :: m1.1 :: rb.conts.map some) = .ok m2) (hL' : m2.1 = some L')
     (hle : envLe P C.decl L' L = true)
-    (hrecs : ∀ x, x ∈ rc.recs ++ rb.2 → x ∈ tm) :
+    (hrecs : ∀ x, x ∈ rc.recs ++ rb.recs → x ∈ tm) :
     ∀ m, m ≤ n + 1 → ∀ (σ : Store) (st : State), StoreOK P st.heap C.decl L σ →
-      Sat P tm st (evalS m P σ (.while c b)) (StmtSpec P C (pushMap L' true rc.no)) := by
+      Sat P tm st (evalS m P σ (.while c b)) (fun st' ctl => match ctl with
+        | .normal σ' => (∃ Γe, pushMap L' true rc.no = some Γe ∧ StoreOK P st'.heap C.decl Γe σ') ∨
+                        (∃ Γb, Γb ∈ rb.brks ∧ StoreOK P st'.heap C.decl Γb σ')
+        | .ret v => hasTy P st'.heap v C.ret
+        | _ => False) := by
   intro m
   induction m with
   | zero => intro _ σ st _; simp only [evalS]; exact sat_fail trivial
@@ -70,18 +75,28 @@ theorem while_ok (w : WF P) {n : Nat} (ihe : ∀ m, m ≤ n → ExprOK P tm m) (
         obtain ⟨Γ2, hΓ2, hst2⟩ := mergeEnvs_sound w hm2 (b := Γ1) (by rw [← hΓ1]; simp) hst1
         rw [hL'] at hΓ2; cases hΓ2
         exact ihm (by omega) σ' st2 (envLe_sound w hle hst2)
+      | cont σ' =>
+        obtain ⟨Γc, hΓc, hstc⟩ := hctl
+        obtain ⟨Γ2, hΓ2, hst2⟩ := mergeEnvs_sound w hm2 (b := Γc)
+          (by simp only [List.mem_cons, List.mem_map]; right; right; exact ⟨Γc, hΓc, rfl⟩) hstc
+        rw [hL'] at hΓ2; cases hΓ2
+        exact ihm (by omega) σ' st2 (envLe_sound w hle hst2)
+      | brk σ' =>
+        obtain ⟨Γb, hΓb, hstb⟩ := hctl
+        exact sat_pure (Or.inr ⟨Γb, hΓb, hstb⟩)
     | false =>
       simp only [Bool.false_eq_true, if_false]
       apply sat_pure
       obtain ⟨Γ2, hΓ2, hst2⟩ := mergeEnvs_sound w hm2 (b := L) (by simp) (hst.ext e1)
       rw [hL'] at hΓ2; cases hΓ2
       obtain ⟨Γe, hΓe, hste⟩ := (hv.2.2 htv).push true hst2
-      exact ⟨Γe, hΓe, hste⟩
+      exact Or.inl ⟨Γe, hΓe, hste⟩
 
 /-! ## One step of the induction on the fuel: statements -/
 
 theorem stmt_step (t : Typed P tm) {n : Nat} (ih : ∀ m, m ≤ n → EvalOK P tm m) : StmtOK P tm (n + 1) := by
   intro k C Γ s r σ st hP htc hrecs hst
+  subst hP
   have w := t.wf
   have ihn := ih n (Nat.le_refl n)
   cases k with
@@ -91,6 +106,12 @@ theorem stmt_step (t : Typed P tm) {n : Nat} (ih : ∀ m, m ≤ n → EvalOK P t
   | pass =>
     simp only [tcS, pure_ok] at htc; subst htc
     simp only [evalS]; exact sat_pure ⟨Γ, rfl, hst⟩
+  | brk =>
+    simp only [tcS, pure_ok] at htc; subst htc
+    simp only [evalS]; exact sat_pure ⟨Γ, by simp, hst⟩
+  | cont =>
+    simp only [tcS, pure_ok] at htc; subst htc
+    simp only [evalS]; exact sat_pure ⟨Γ, by simp, hst⟩
   | decl x e =>
     simp only [tcS] at htc
     cases hx : C.decl[x]? with
@@ -101,10 +122,10 @@ theorem stmt_step (t : Typed P tm) {n : Nat} (ih : ∀ m, m ≤ n → EvalOK P t
       obtain ⟨_, hnone, r0, hr0, _, hsub, hr⟩ := htc
       subst hr
       simp only [evalS]
-      refine sat_bind (ihn.expr k C Γ false false e r0 σ st hP hr0 hrecs hst) ?_
+      refine sat_bind (ihn.expr k C Γ false false e r0 σ st rfl hr0 hrecs hst) ?_
       intro st1 v e1 hv
       apply sat_pure
-      refine ⟨Γ, rfl, (hst.ext e1).declare hx ?_ (subTy_sound w (hP ▸ hsub) hv.1)⟩
+      refine ⟨Γ, rfl, (hst.ext e1).declare hx ?_ (subTy_sound w hsub hv.1)⟩
       cases hl : lookup x Γ with
       | none => rfl
       | some _ => rw [hl] at hnone; simp at hnone
@@ -118,7 +139,7 @@ theorem stmt_step (t : Typed P tm) {n : Nat} (ih : ∀ m, m ≤ n → EvalOK P t
       obtain ⟨r0, hr0, _, _, hr⟩ := htc
       subst hr
       simp only [evalS]
-      refine sat_bind (ihn.expr k C Γ false false e r0 σ st hP hr0 hrecs hst) ?_
+      refine sat_bind (ihn.expr k C Γ false false e r0 σ st rfl hr0 hrecs hst) ?_
       intro st1 v e1 hv
       exact sat_pure ⟨_, rfl, (hst.ext e1).assign hv.1⟩
   | setAttr o f e =>
@@ -127,7 +148,6 @@ theorem stmt_step (t : Typed P tm) {n : Nat} (ih : ∀ m, m ≤ n → EvalOK P t
     split at htc
     · next hall =>
       simp only [pure_ok] at htc; subst htc
-      subst hP
       simp only [evalS]
       refine sat_bind (ihn.expr k C Γ false false e re σ st rfl hre (fun x hx => hrecs x (List.mem_append_right _ hx)) hst) ?_
       intro st1 v e1 hv
@@ -143,7 +163,7 @@ theorem stmt_step (t : Typed P tm) {n : Nat} (ih : ∀ m, m ≤ n → EvalOK P t
     obtain ⟨r0, hr0, hr⟩ := htc
     subst hr
     simp only [evalS]
-    refine sat_bind (ihn.expr k C Γ true false e r0 σ st hP hr0 hrecs hst) ?_
+    refine sat_bind (ihn.expr k C Γ true false e r0 σ st rfl hr0 hrecs hst) ?_
     intro st1 v e1 _
     exact sat_pure ⟨Γ, rfl, hst.ext e1⟩
   | ret e =>
@@ -151,14 +171,13 @@ theorem stmt_step (t : Typed P tm) {n : Nat} (ih : ∀ m, m ≤ n → EvalOK P t
     obtain ⟨r0, hr0, _, hsub, hr⟩ := htc
     subst hr
     simp only [evalS]
-    refine sat_bind (ihn.expr k C Γ _ false e r0 σ st hP hr0 hrecs hst) ?_
+    refine sat_bind (ihn.expr k C Γ _ false e r0 σ st rfl hr0 hrecs hst) ?_
     intro st1 v e1 hv
-    exact sat_pure (subTy_sound w (hP ▸ hsub) hv.1)
+    exact sat_pure (subTy_sound w hsub hv.1)
   | ite c tb eb =>
     simp only [tcS, bind_ok, req_ok, pure_ok] at htc
-    obtain ⟨rc, hrc, _, hbool, rt, hrt, re, hre, m, hm, hr⟩ := htc
+    obtain ⟨rc, hrc, _, _, rt, hrt, re, hre, m, hm, hr⟩ := htc
     subst hr
-    subst hP
     simp only [evalS]
     refine sat_bind (ihn.expr k C Γ false true c rc σ st rfl hrc
       (fun x hx => hrecs x (List.mem_append_left _ (List.mem_append_left _ hx))) hst) ?_
@@ -176,6 +195,8 @@ theorem stmt_step (t : Typed P tm) {n : Nat} (ih : ∀ m, m ≤ n → EvalOK P t
       | normal σ' =>
         obtain ⟨Γb, hΓb, hstb⟩ := hctl
         exact mergeEnvs_sound w hm (b := Γb) (by rw [← hΓb]; simp) hstb
+      | brk σ' => obtain ⟨Γb, hΓb, hstb⟩ := hctl; exact ⟨Γb, List.mem_append_left _ hΓb, hstb⟩
+      | cont σ' => obtain ⟨Γb, hΓb, hstb⟩ := hctl; exact ⟨Γb, List.mem_append_left _ hΓb, hstb⟩
     | false =>
       simp only [Bool.false_eq_true, if_false]
       obtain ⟨Γe, hΓe, hste⟩ := (hv.2.2 htv).push false (hst.ext e1)
@@ -188,21 +209,22 @@ theorem stmt_step (t : Typed P tm) {n : Nat} (ih : ∀ m, m ≤ n → EvalOK P t
       | normal σ' =>
         obtain ⟨Γb, hΓb, hstb⟩ := hctl
         exact mergeEnvs_sound w hm (b := Γb) (by rw [← hΓb]; simp) hstb
+      | brk σ' => obtain ⟨Γb, hΓb, hstb⟩ := hctl; exact ⟨Γb, List.mem_append_right _ hΓb, hstb⟩
+      | cont σ' => obtain ⟨Γb, hΓb, hstb⟩ := hctl; exact ⟨Γb, List.mem_append_right _ hΓb, hstb⟩
   | «while» c b =>
     simp only [tcS, bind_ok, pure_ok] at htc
-    obtain ⟨out, hout, m, hm, hr⟩ := htc
+    obtain ⟨p, hloop, m, hm, hr⟩ := htc
     subst hr
-    subst hP
     -- every pass only widens the loop frame
     have hstep : ∀ L p, (do
           let rc ← tcE k C L false true c
-          req (rc.ty == [Atom.bool]) (TcErr.unsupported 3)
+          req (rc.ty == [Atom.bool] || isTruthVar c) (TcErr.unsupported 3)
           let rb ← tcS k C (pushMap L false rc.yes) b
-          let m1 ← mergeEnvs C.P C.decl L [rb.1, pushMap L false rc.no]
-          let m2 ← mergeEnvs C.P C.decl L [some L, m1.1]
+          let m1 ← mergeEnvs C.P C.decl L [rb.out, pushMap L false rc.no]
+          let m2 ← mergeEnvs C.P C.decl L (some L :: m1.1 :: rb.conts.map some)
           match m2.1 with
           | none => Except.error (TcErr.stuck 5)
-          | some L' => pure ({ next := L', changed := m2.2, exit := pushMap L' true rc.no, recs := rc.recs ++ rb.2 } : Pass)) = .ok p →
+          | some L' => pure ({ next := L', changed := m2.2, exit := pushMap L' true rc.no, recs := rc.recs ++ rb.recs, brks := rb.brks } : Pass)) = .ok p →
         ∀ (h : Heap) (σ : Store), StoreOK C.P h C.decl L σ → StoreOK C.P h C.decl p.next σ := by
       intro L p hp h σ s
       simp only [bind_ok, req_ok] at hp
@@ -213,37 +235,48 @@ theorem stmt_step (t : Typed P tm) {n : Nat} (ih : ∀ m, m ≤ n → EvalOK P t
         rw [hL'] at hp; simp only [pure_ok] at hp; subst hp
         obtain ⟨Γ2, hΓ2, hst2⟩ := mergeEnvs_sound w hm2 (b := L) (by simp) s
         rw [hL'] at hΓ2; cases hΓ2; exact hst2
-    obtain ⟨L, p, hp, hle, hout', hreach⟩ := loopIter_inv hstep 4 Γ out hout
+    obtain ⟨L, hp, hle, hreach⟩ := loopIter_inv hstep 4 Γ p hloop
     simp only [bind_ok, req_ok] at hp
-    obtain ⟨rc, hrc, _, hbool, rb, hrb, m1, hm1, m2, hm2, hp⟩ := hp
+    obtain ⟨rc, hrc, _, _, rb, hrb, m1, hm1, m2, hm2, hp⟩ := hp
     cases hL' : m2.1 with
     | none => rw [hL'] at hp; simp at hp
     | some L' =>
       rw [hL'] at hp; simp only [pure_ok] at hp; subst hp
-      subst hout'
       simp only at hle hm hrecs
-      have hloop := while_ok w (fun m hm => (ih m hm).expr) (fun m hm => (ih m hm).stmt) rfl hrc (beq_ty hbool) hrb hm1 hm2 hL' hle
+      have hloop := while_ok w (fun m hm => (ih m hm).expr) (fun m hm => (ih m hm).stmt) rfl hrc hrb hm1 hm2 hL' hle
         hrecs (n + 1) (Nat.le_refl _) σ st (hreach st.heap σ hst)
       refine sat_mono hloop ?_
       intro st2 ctl _ hctl
       cases ctl with
       | ret u => exact hctl
       | normal σ' =>
-        obtain ⟨Γe, hΓe, hste⟩ := hctl
-        exact mergeEnvs_sound w hm (b := Γe) (by rw [← hΓe]; simp) hste
+        rcases hctl with ⟨Γe, hΓe, hste⟩ | ⟨Γb, hΓb, hstb⟩
+        · exact mergeEnvs_sound w hm (b := Γe) (by rw [← hΓe]; simp) hste
+        · exact mergeEnvs_sound w hm (b := Γb)
+            (by simp only [List.mem_cons, List.mem_map]; right; exact ⟨Γb, hΓb, rfl⟩) hstb
+      | brk σ' => exact hctl.elim
+      | cont σ' => exact hctl.elim
   | seq a b =>
     simp only [tcS, bind_ok, pure_ok] at htc
     obtain ⟨ra, hra, rb, hrb, hr⟩ := htc
     subst hr
     simp only [evalS]
-    refine sat_bind (ihn.stmt k C Γ a ra σ st hP hra (fun x hx => hrecs x (List.mem_append_left _ hx)) hst) ?_
+    refine sat_bind (ihn.stmt k C Γ a ra σ st rfl hra (fun x hx => hrecs x (List.mem_append_left _ hx)) hst) ?_
     intro st1 ctl e1 hctl
     cases ctl with
     | ret u => exact sat_pure hctl
+    | brk σ' => obtain ⟨Γb, hΓb, hstb⟩ := hctl; exact sat_pure ⟨Γb, List.mem_append_left _ hΓb, hstb⟩
+    | cont σ' => obtain ⟨Γb, hΓb, hstb⟩ := hctl; exact sat_pure ⟨Γb, List.mem_append_left _ hΓb, hstb⟩
     | normal σ' =>
       obtain ⟨Γ1, hΓ1, hst1⟩ := hctl
       rw [hΓ1] at hrb
-      exact ihn.stmt k C Γ1 b rb σ' st1 hP hrb (fun x hx => hrecs x (List.mem_append_right _ hx)) hst1
+      refine sat_mono (ihn.stmt k C Γ1 b rb σ' st1 rfl hrb (fun x hx => hrecs x (List.mem_append_right _ hx)) hst1) ?_
+      intro st2 ctl _ hctl
+      cases ctl with
+      | ret u => exact hctl
+      | normal σ'' => exact hctl
+      | brk σ'' => obtain ⟨Γb, hΓb, hstb⟩ := hctl; exact ⟨Γb, List.mem_append_right _ hΓb, hstb⟩
+      | cont σ'' => obtain ⟨Γb, hΓb, hstb⟩ := hctl; exact ⟨Γb, List.mem_append_right _ hΓb, hstb⟩
 
 /-! ## The induction -/
 
